@@ -177,10 +177,12 @@ def enc(f, v, marks=None, base=0):
     if k == 'Rep':
         if not isinstance(v, list):
             raise NoFit('shape')
-        out = b''
+        parts, n = [], 0
         for e in v:
-            out += enc(f[1], e, marks, base + len(out))
-        return out
+            x = enc(f[1], e, marks, base + n)
+            parts.append(x)
+            n += len(x)
+        return b''.join(parts)
     if k == 'Opt':
         if v is None:
             return b''
@@ -240,7 +242,8 @@ def dec(f, bs):
         return v, r2
     if k == 'Rep':
         out = []
-        while bs:
+        bs = memoryview(bytes(bs))            # no quadratic copying on long lists
+        while len(bs):
             v, r = dec(f[1], bs)
             if len(r) >= len(bs):
                 raise AssertionError('element consumed nothing')
